@@ -13,6 +13,7 @@ core = m(PK, "Keeper", ["RecvPacket", "WriteAcknowledgement", "AcknowledgePacket
 cw = m(CK, "Keeper", ["GetClientState", "SetClientState", "SetClientConsensusState", "SetChainName", "RegisterRelayers", "SetAllClientMetadata", "CreateClient", "UpgradeClient", "ToggleClient", "UpdateClient"])
 rel = m(CK, "Keeper", ["GetRelayer", "AuthRelayer", "GetRelayerAddressOnOtherChain"])
 ms = m(MS, "Keeper", ["RecvPacket", "Acknowledgement", "UpdateClient"])
+unpack = ["x/xibc/core/client/types.UnpackHeader"]
 tss = m(TSS, "ClientState", ["CheckMsg", "VerifyPacketCommitment", "VerifyPacketAcknowledgement"])
 aggcalls = m(AK, "Keeper", ["CallEVMWithData", "AddERC20TraceToTransferContract", "EnableTimeBasedSupplyLimitInTransferContract", "DisableTimeBasedSupplyLimitInTransferContract"])
 def fq(pkg, recv, names): return ["(" + pkg[:-1] + "." + recv + ")." + n for n in names]
@@ -38,7 +39,7 @@ cfgs = {
  "C03": {"functions": m(PK, "Keeper", ["CallEVMWithData", "CallPacket", "WriteAcknowledgement", "RecvPacket", "AcknowledgePacket"]) + ms[:2] + rel[2:] + cw[:1] + aggcalls[:1], "inventory": [inv_apply]},
  "C04": {"functions": m(PK, "Keeper", ["GetNextSequenceSend", "SetNextSequenceSend", "SetPacketCommitment", "SendPacket", "CallPacket", "CallEVMWithData"]) + m(PK, "Hooks", ["PostTxProcessing"]) + cw[:1]},
  "C05": {"functions": [a for a in acc if "Acknowledgement" in a or "Commitment" in a] + core + ms[:2] + cw[:1] + rel[2:], "inventory": [inv_writers, inv_del]},
- "C06": {"functions": rel + ms + tss + m(PK, "Keeper", ["CallPacket", "RecvPacket", "AcknowledgePacket"]) + cw[:1] + aggcalls, "inventory": [inv_apply, inv_pkcall, inv_callpacket, inv_aggcall]},
+ "C06": {"functions": unpack + rel + ms + tss + m(PK, "Keeper", ["CallPacket", "RecvPacket", "AcknowledgePacket"]) + cw[:1] + aggcalls, "inventory": [inv_apply, inv_pkcall, inv_callpacket, inv_aggcall]},
 }
 RV = ["x/rvesting/types.validatePerBlockReward", "x/rvesting/types.(*Params).validate", "x/rvesting/types.ValidateGenesis", "x/rvesting/keeper.(Keeper).InitGenesis", "x/rvesting/module.BeginBlocker"]
 cfgs["C20"] = {"functions": ["x/rvesting/types.validatePerBlockReward", "x/rvesting/types.(*Params).validate", "x/rvesting/module.BeginBlocker"],
